@@ -411,6 +411,32 @@ func flipTemplates() []chainx.Tpl {
 	return append([]chainx.Tpl{put("flip-a", "1"), put("flip-b", "2"), del}, chainx.TplByName("empty")...)
 }
 
+// settingTemplates is the alphabet of plan D: a native setting kept both in
+// contract storage and in the native's in-memory cache (Policy's whitelisted
+// method fees) is set, set AGAIN to another value, removed and used, with
+// restarts in between: what a restarted node reads back from storage must be
+// what the running node has in its cache.
+func settingTemplates() []chainx.Tpl {
+	pol := nativehashes.PolicyContract
+	one := func(tx *transaction.Transaction, err error) ([]*transaction.Transaction, error) {
+		if err != nil {
+			return nil, err
+		}
+		return []*transaction.Transaction{tx}, nil
+	}
+	set := chainx.Tpl{Name: "wl-set", Build: func(w *chainx.World) ([]*transaction.Transaction, error) {
+		fee := int64(w.N.Height()%3) * 1000000 // consecutive uses give different fees
+		return one(w.N.CallTx([]neotest.Signer{w.N.Committee}, pol, "setWhitelistFeeContract", w.UA.Hash, "other", 1, fee))
+	}}
+	rem := chainx.Tpl{Name: "wl-remove", Build: func(w *chainx.World) ([]*transaction.Transaction, error) {
+		return one(w.N.CallTx([]neotest.Signer{w.N.Committee}, pol, "removeWhitelistFeeContract", w.UA.Hash, "other", 1))
+	}}
+	use := chainx.Tpl{Name: "wl-use", Build: func(w *chainx.World) ([]*transaction.Transaction, error) {
+		return one(w.N.CallTx([]neotest.Signer{chainx.Signer(2)}, w.UA.Hash, "other", 7))
+	}}
+	return append([]chainx.Tpl{set, use, rem}, chainx.TplByName("empty")...)
+}
+
 func flipVariants(depth int) []variant {
 	all := uint(1<<uint(depth+1)) - 1
 	alt := uint(0x55555555) & all
@@ -467,6 +493,10 @@ func TestCheck(t *testing.T) {
 				// unrelated blocks in between), depth 5, on the trie modes with reference
 				// counting / garbage collection and a restart-heavy archival control
 				scs = append(scs, &scenario{r: r, vs: flipVariants(5), fam: f, pad: p, tpls: flipTemplates(), depth: 5, tree: map[histKey]*treeNode{}})
+			}
+			if f.Name == "single" || (r.Thorough() && !f.Multi) {
+				// plan D: a cached native setting set, re-set, removed and used, depth 4
+				scs = append(scs, &scenario{r: r, vs: flipVariants(4), fam: f, pad: p, tpls: settingTemplates(), depth: 4, tree: map[histKey]*treeNode{}})
 			}
 			if r.Thorough() {
 				// plan B: the quick alphabet, depth 3, the basic variants
@@ -583,7 +613,7 @@ func TestCheck(t *testing.T) {
 		"traces_validated_against_impl": int(runs.Get()),
 		"histories":                     int(hist.Get()),
 		"distinct_state_roots":          roots.Len(),
-		"plans":                         "A: full alphabet of the tier, depth 2, all variants; B (thorough only): quick alphabet, depth 3, basic variants; C (single families): value flip/delete/re-create alphabet, depth 5, pruning/GC/latest-state and restart variants",
+		"plans":                         "A: full alphabet of the tier, depth 2, all variants; B (thorough only): quick alphabet, depth 3, basic variants; C (single families): value flip/delete/re-create alphabet, depth 5, pruning/GC/latest-state and restart variants; D (single families): Policy whitelisted-method fee set / set again / removed / used, depth 4, same variants",
 		"block_alphabet":                tplNames(r),
 		"families":                      []string{"single", "single-srih", "multi", "multi-srih"},
 		"preamble_pads":                 pads,
@@ -621,7 +651,20 @@ func replay(r *vk.Run, fams []family, depth int) {
 		os.Exit(3)
 	}
 	// names are stable across tiers; rebuild the alphabet from the recorded names
-	tpls := chainx.TplByName(c.History...)
+	local := append(flipTemplates(), settingTemplates()...)
+	var tpls []chainx.Tpl
+	for _, name := range c.History {
+		found := false
+		for _, t := range local {
+			if t.Name == name && name != "empty" {
+				tpls, found = append(tpls, t), true
+				break
+			}
+		}
+		if !found {
+			tpls = append(tpls, chainx.TplByName(name)...)
+		}
+	}
 	h := make([]int, len(tpls))
 	for i := range h {
 		h[i] = i
